@@ -66,7 +66,11 @@ ReturnCheck(e) ==
                  (IF (hasmodel \/ e.has_first) /\ unsat THEN "ReturnMaxIter.model_for_unsatisfiable_formula"
                   ELSE IF seen.maxiter /\ ~seen.budget_ok THEN "ReturnMaxIter.budget_not_exhausted" ELSE "")
             ELSE "Return.unexpected_status"
-  IN <<w1, w2>>
+      \* (T) work bounded by the budgets: the conflict budget is tested after each decision, and between two decisions at most
+      \* one conflict per decision level can occur, so the number of learned clauses cannot exceed max_conflicts + #variables + 2
+      nv == Cardinality({Abs(x) : x \in UNION InCnf} \cup {Abs(x) : x \in Assum})
+      w3 == IF ~T.truncated /\ seen.learn > T.max_conflicts + nv + 2 THEN "Termination.conflict_budget_ignored" ELSE ""
+  IN <<w1, IF w2 # "" THEN w2 ELSE w3>>
 
 Step ==
   /\ ok /\ l <= Len(Ev) /\ l' = l + 1 /\ tid' = tid
